@@ -52,15 +52,52 @@ def check_multiset_def(prog: Program, res: Result) -> None:
                 instance=inst)
     # the tuple hash must consume positions in order (idx-dependent multiplier)
     tf = _fn(prog, TUPLE_H)
-    t = utext(tf.node)
     inst = "numpy_int_tuple_hash folds arr[..., idx] with a position-dependent multiplier"
-    if re.search(r"for idx, mult in enumerate\(mults\)", t) and \
-            "output ^= arr[..., idx]" in t and "output *= mult" in t and \
-            "itertools.accumulate" in t:
+    arr0 = tf.params()[0]
+    single = {}
+    for n in ast.walk(tf.node):
+        if isinstance(n, ast.Assign) and len(n.targets) == 1 and isinstance(
+                n.targets[0], ast.Name):
+            single.setdefault(n.targets[0].id, []).append(n.value)
+    verdict, why = None, "no `for i, m in enumerate(multipliers)` loop"
+    for loop in ast.walk(tf.node):
+        if not (isinstance(loop, ast.For) and isinstance(loop.iter, ast.Call)
+                and call_name(loop.iter) == "enumerate" and loop.iter.args
+                and isinstance(loop.target, ast.Tuple)
+                and len(loop.target.elts) == 2
+                and all(isinstance(e, ast.Name) for e in loop.target.elts)):
+            continue
+        I, M = (e.id for e in loop.target.elts)
+        src = loop.iter.args[0]
+        if isinstance(src, ast.Name) and len(single.get(src.id, [])) == 1:
+            src = single[src.id][0]
+        varying = isinstance(src, ast.Call) and (call_name(src) or "").endswith(
+            "accumulate")
+        mixes = [b for b in loop.body if isinstance(b, ast.AugAssign)
+                 and isinstance(b.op, ast.BitXor)
+                 and norm(b.value) == f"{arr0}[..., {I}]"]
+        mults = [b for b in loop.body if isinstance(b, ast.AugAssign)
+                 and isinstance(b.op, ast.Mult) and norm(b.value) == M]
+        commut = [b for b in loop.body if isinstance(b, ast.AugAssign)
+                  and isinstance(b.op, (ast.Add, ast.BitXor, ast.BitOr))
+                  and f"{arr0}[..., {I}]" in norm(b.value)]
+        if mixes and mults and norm(mixes[0].target) == norm(
+                mults[0].target) and varying:
+            verdict = True
+        elif commut and not mults:
+            verdict, why = False, (
+                f"`{norm(commut[0])}` without a per-position multiplier is "
+                "commutative: the tuple hash no longer depends on the order")
+        elif mixes and mults and not varying:
+            verdict, why = None, (f"multipliers `{norm(src, 60)}` not "
+                                  "recognised as position dependent")
+    if verdict is True:
         res.ok("R-MULTISET-DEF", inst, tf.loc())
-    else:
+    elif verdict is False:
         res.bad("R-MULTISET-DEF", f"{tf.short} fold", tf.loc(),
-                f"{inst}: fold over positions not recognised", instance=inst)
+                f"{inst}: {why}", instance=inst)
+    else:
+        res.unrecognised("R-MULTISET-DEF", inst, tf.loc(), why)
 
 
 # ---------------------------------------------------------------------------
@@ -620,13 +657,17 @@ def check_stop_invariant(prog: Program, res: Result) -> None:
                     res.ok("R-STOP-INV", inst, fi.loc(node))
     res.need("R-STOP-INV", n, 1, "loop exits")
     # the array returned is the last one drawn from the generator
-    rets = [norm(r.value) for r in ast.walk(fi.node) if isinstance(r, ast.Return)]
+    rets = [r.value for r in ast.walk(fi.node) if isinstance(r, ast.Return)]
     inst = f"{fi.short}: returns the last refined colours"
-    if rets == ["atom_hash"]:
+    if len(rets) == 1 and rets[0] is not None and is_colours(rets[0]):
         res.ok("R-STOP-INV", inst, fi.loc())
+    elif len(rets) == 1 and isinstance(rets[0], ast.Name):
+        res.bad("R-STOP-INV", f"{fi.short}: returns {norm(rets[0])}", fi.loc(),
+                f"{inst}: returns `{norm(rets[0])}`, which is not an array "
+                "drawn from the refinement generator", instance=inst)
     else:
-        res.bad("R-STOP-INV", f"{fi.short}: returns {rets}", fi.loc(),
-                f"{inst}: returns {rets}", instance=inst)
+        res.unrecognised("R-STOP-INV", inst, fi.loc(),
+                         f"returns {[norm(r) for r in rets]}")
 
 
 # ---------------------------------------------------------------------------
@@ -728,42 +769,64 @@ def check_stereo_latency(prog: Program, res: Result) -> None:
              "hash must have been assigned the atom colours before its first "
              "use")
     fs = _fn(prog, "stereo_morgan_generator")
-    loops = [n for n in ast.walk(fs.node) if isinstance(n, ast.For)
-             and "itertools.count" in norm(n.iter)]
+    # the refinement loop: the loop that both hashes and yields
+    loops = [n for n in ast.walk(fs.node) if isinstance(n, (ast.For, ast.While))
+             and any(isinstance(y, ast.Yield) for y in ast.walk(n))
+             and any(isinstance(c, ast.Call) and call_name(c) == TUPLE_H
+                     for c in ast.walk(n))]
     if not loops:
         raise AnalysisError("stereo_morgan_generator: refinement loop vanished")
-    loop = loops[0]
-    # array read by the bond-stereo tuple hash
+    loop = loops[-1]
+    # the colour array that is refined in place inside the loop
+    updated = [norm(x.targets[0].value) for x in ast.walk(loop)
+               if isinstance(x, ast.Assign) and len(x.targets) == 1
+               and isinstance(x.targets[0], ast.Subscript)
+               and isinstance(x.targets[0].value, ast.Name)
+               and any(isinstance(c, ast.Call) and call_name(c) in (
+                   TUPLE_H, MSET_H) for c in ast.walk(x.value))]
+    if not updated:
+        raise AnalysisError("stereo_morgan_generator: in-place colour update "
+                            "not found")
+    cur = updated[0]
     reads = [n for n in ast.walk(loop) if isinstance(n, ast.Call)
              and call_name(n) == TUPLE_H and n.args
              and isinstance(n.args[0], ast.Subscript)
-             and any(k.arg == "out" and norm(k.value).startswith("b_")
-                     for k in n.keywords)]
+             and isinstance(n.args[0].value, ast.Name)]
     if not reads:
-        raise AnalysisError("stereo_morgan_generator: bond-stereo hash vanished")
+        raise AnalysisError("stereo_morgan_generator: stereo hashes vanished")
+    n_lag = 0
     for r in reads:
         arr = norm(r.args[0].value)
-        inst = f"{fs.short}: bond-stereo hash reads `{arr}`"
-        if arr == "atom_hash":
+        inst = f"{fs.short}: stereo hash reads `{arr}`"
+        if arr == cur:
             res.ok("R-STEREO-LATENCY", inst, fs.loc(r))
             continue
-        # where is `arr` given real colours?
-        copies = [n for n in ast.walk(fs.node) if isinstance(n, ast.Assign)
-                  and norm(n.targets[0]).startswith(arr)
-                  and re.search(r"(?<![\w.])atom_hash\b", norm(n.value))
-                  and not re.search(r"(zeros|empty|ones|full)(_like)?\(",
-                                    norm(n.value))]
-        before = [c for c in copies if c.lineno < r.lineno
-                  and not any(a is loop for a in ancestors(c))]
-        in_loop_before = [c for c in copies if c.lineno < r.lineno
-                          and any(a is loop for a in ancestors(c))]
+        n_lag += 1
+        # where is the lagging array given real colours?
+        def fills(n):
+            if isinstance(n, ast.Assign) and len(n.targets) == 1:
+                t = n.targets[0]
+                base = t.value if isinstance(t, ast.Subscript) else t
+                return norm(base) == arr and re.search(
+                    rf"(?<![\w.]){re.escape(cur)}\b", norm(n.value)) and \
+                    not re.search(r"(zeros|empty|ones|full)(_like)?\(",
+                                  norm(n.value))
+            if isinstance(n, ast.Expr) and isinstance(n.value, ast.Call) and \
+                    call_name(n.value) in ("np.copyto", "numpy.copyto") and \
+                    len(n.value.args) >= 2:
+                return norm(n.value.args[0]) == arr and cur in norm(
+                    n.value.args[1])
+            return False
+        copies = [n for n in ast.walk(fs.node) if fills(n)]
+        first_trip = [c for c in copies if c.lineno < r.lineno]
         init = [n for n in ast.walk(fs.node) if isinstance(n, ast.Assign)
                 and norm(n.targets[0]) == arr]
-        if before or in_loop_before:
+        if first_trip:
             res.ok("R-STEREO-LATENCY", inst, fs.loc(r))
         else:
             res.bad("R-STEREO-LATENCY",
-                    f"stereo_morgan_generator/{arr} first trip", fs.loc(r),
+                    "stereo_morgan_generator: stereo hash reads a colour "
+                    "array that holds no colours on the first trip", fs.loc(r),
                     f"{inst}, whose only definition reaching the first trip "
                     f"is `{norm(init[0]) if init else '?'}` (no colours): the "
                     "first refined array is blind to double-bond geometry, "
